@@ -380,6 +380,20 @@ def warnWH : List (Nat × WInstr) :=
 def warnW : List (Nat × WInstr) := [(0, .ifNotHW), (1, .selfWriteHeader200), (0, .teeWrite)]
 def warnF : List (Nat × WInstr) := [(0, .assertFlusher), (0, .ifOk), (1, .flFlush)]
 
+/-- one handler call served by the *source programs* of the strict wrapper: WriteHeader and Write by their statement
+lists; Header() hands out the underlying writer's map (`return wr.w.Header()`), there is no Flush method, a panic
+unwinds — those as in `Strict.step` -/
+def Strict.srcStep (w : Strict) : Op → Strict
+  | .writeHeader n => (wexec noSelf strictWH { WSt.ofStrict w with arg := n }).toStrict
+  | .write bs => (wexec (selfCall strictWH) strictW { WSt.ofStrict w with bs := bs }).toStrict
+  | op => w.step op
+
+def Warn.srcStep (w : Warn) : Op → Warn
+  | .writeHeader n => (wexec noSelf warnWH { WSt.ofWarn w with arg := n }).toWarn
+  | .write bs => (wexec (selfCall warnWH) warnW { WSt.ofWarn w with bs := bs }).toWarn
+  | .flush => (wexec noSelf warnF (WSt.ofWarn w)).toWarn
+  | op => w.step op
+
 /-! concrete inputs of the witness theorems in Props/C14Flow -/
 def envBadReq : Env := { routeFound := true, reqOK := false, respOK := fun _ _ _ => true }
 def envBadResp : Env := { routeFound := true, reqOK := true, respOK := fun _ _ _ => false }
